@@ -179,6 +179,8 @@ pub struct Facts {
     pub union_clone: bool,
     pub roundtrip_with_clone_between: bool,
     pub moves: u32,
+    pub drop_panics: u32,
+    pub clone_froms: u32,
 }
 
 pub struct St<P: SizedPayload> {
